@@ -5,7 +5,17 @@ vf/model_events.py for the spec grammar.
 Round 8 (end of the file): fault histories (fault_program: plays that fail
 half way, repair, continued use of the same object), player-control histories
 (control_case), compositions with Pkey / Pevent / Pchain.chain (entry_case)
-and players beside a pattern whose k-th event fails (pattern_fault_case)."""
+and players beside a pattern whose k-th event fails (pattern_fault_case).
+
+Round 9: key sets (group_keys: tuple keys of Pbind / Pmono mappings whose
+column yields one list per event - as long as, or longer than, the key set -
+in every composition; a list that is too short as a pattern fault), restarts
+of the SAME player after a stop (reuse_case, `restart`), and player-control
+histories over mono lines (mono_control_case: stop / reset / pause / resume /
+reset + play on Pmono and PmonoArtic lines while their node is alive, also
+after an event of the line failed)."""
+
+import random
 
 from vf import model_events as me
 
@@ -773,6 +783,13 @@ def reuse_case(rng, insts, tags):
             last['stop'] = last['at'] + (2 * rng.randint(0, steps) + 1) / 32.0
     if case.get('plays'):
         case['where'] = 'routine-system'
+    if form == 'stop-replay':
+        # how the pattern is played again after the stop: by a new player
+        # (Pattern.play) or by the SAME player, restarted the usual way -
+        # reset() + play() or play(reset=True).  Every run must be the time
+        # line of a fresh pattern, every mono node released exactly once
+        case['restart'] = rng.choice(['new-player', 'reset-play',
+                                      'reset-play', 'play-reset'])
     return case
 
 
@@ -944,7 +961,185 @@ def special_case(rng, insts, tags):
             'start': rng.choice([0.25, 1, 2.5]), 'proto': None}
 
 
+# ---------------------------------------------------------------- key sets
+#
+# Pbind help: "the key can be an array of keys, the value pattern then yields
+# an array of values" (multi-key assignment; in this library a tuple as key).
+# Value j of the list goes to key j; a list LONGER than the key set is legal,
+# the surplus is ignored; the keys before and after the key set are evaluated
+# as usual.  group_keys() rewrites mappings of a finished composition so that
+# 1-3 of its plain columns are given through one key set - the denotation (the
+# rows of the Pbind) stays what it was by construction.
+
+SURPLUS = [0, 7, 0.5, -1, 'tonic', None, 1000.125]
+
+
+def _group_mapping(rng, m, st):
+    """The mapping `m` with some plain columns given through key sets."""
+    out = dict(m)
+    for _ in range(1 if rng.random() < 0.7 else 2):
+        cand = [k for k, v in out.items()
+                if not me.is_keyset(k) and not me._is_key_column(v)]
+        if not cand:
+            break
+        size = min(len(cand), rng.choice([1, 2, 2, 2, 3, 3]))
+        members = rng.sample(cand, size)
+        cols = [me.values(out[k]) for k in members]
+        finite = [len(c) for c in cols if c is not None]
+        shape = rng.choice(['equal', 'longer', 'longer', 'mixed', 'mixed'])
+
+        def row(i):
+            vals = [(out[k] if c is None else c[i])
+                    for k, c in zip(members, cols)]
+            more = shape == 'longer' or (shape == 'mixed'
+                                         and rng.random() < 0.5)
+            if more:
+                vals = vals + [rng.choice(SURPLUS)
+                               for _ in range(rng.randint(1, 2))]
+                st['surplus'] = st.get('surplus', 0) + 1
+            else:
+                st['equal'] = st.get('equal', 0) + 1
+            return {'row': vals, 'as': rng.choice(['list', 'tuple'])}
+        if finite:
+            col = _as_pattern(rng, [row(i) for i in range(min(finite))])
+        else:
+            col = row(0)            # constants: one constant row
+            st['constant'] = st.get('constant', 0) + 1
+        order = list(out)
+        pos = min(order.index(k) for k in members)
+        items = [(k, v) for k, v in out.items() if k not in members]
+        items.insert(pos, (me.keyset_key(members), col))
+        out = dict(items)
+        st['sets'] = st.get('sets', 0) + 1
+        st[f'size{size}'] = st.get(f'size{size}', 0) + 1
+        after = len(items) - 1 - pos
+        if pos and after:
+            st['between'] = st.get('between', 0) + 1
+        elif after:
+            st['first'] = st.get('first', 0) + 1
+        elif pos:
+            st['last'] = st.get('last', 0) + 1
+    return out
+
+
+def group_keys(rng, p, st, prob=0.6):
+    """Pattern `p` with key sets in some of its Pbind / Pmono mappings (also
+    in the left operand of a Pchain)."""
+    kind = p[0]
+    rec = lambda c: group_keys(rng, c, st, prob)
+    if kind == 'pbind':
+        if rng.random() < prob:
+            st['in_pbind'] = st.get('in_pbind', 0) + 1
+            return ['pbind', _group_mapping(rng, p[1], st)]
+        return p
+    if kind in ('pmono', 'pmono_artic'):
+        if rng.random() < prob:
+            st['in_' + kind] = st.get('in_' + kind, 0) + 1
+            return [kind, p[1], _group_mapping(rng, p[2], st)]
+        return p
+    if kind in ('ppar', 'pseq'):
+        return [kind, [rec(c) for c in p[1]]]
+    if kind == 'pchain':
+        left = p[1]
+        if rng.random() < prob / 2:
+            st['in_pchain_left'] = st.get('in_pchain_left', 0) + 1
+            left = rec(left)
+        return ['pchain', left, rec(p[2])] + list(p[3:])
+    if kind == 'pevent':
+        return ['pevent', p[1], rec(p[2]), p[3]]
+    if kind in ('pdur', 'pdelta', 'pn'):
+        return [kind, p[1], rec(p[2])]
+    return p
+
+
+def with_key_sets(rng, case, prob=0.3):
+    """With probability `prob`: the case with key sets in its pattern (and in
+    its shared pattern objects).  The random choices come from a generator of
+    their own, so the rest of the case is what it was before key sets were
+    generated."""
+    r = rng.random()
+    if r >= prob or (case.get('form') == 'mono-control' and 'fault' in case):
+        return case         # (a failing column is addressed by its key)
+    sub = random.Random(int(r * 2 ** 52))
+    st = {}
+    if 'pattern' in case:
+        case['pattern'] = group_keys(sub, case['pattern'], st)
+    for name, x in list((case.get('shared') or {}).items()):
+        if case.get('form') == 'pattern-fault' and name == 'x':
+            continue        # (the failing column is addressed by its key)
+        case['shared'][name] = group_keys(sub, x, st)
+    if st.get('sets'):
+        for k, v in (case.get('keysets') or {}).items():
+            st[k] = st.get(k, 0) + v
+        case['keysets'] = st
+    return case
+
+
+def _rewrite_key_sets(p, fn):
+    kind = p[0]
+    rec = lambda c: _rewrite_key_sets(c, fn)
+    if kind == 'pbind':
+        return ['pbind', fn(p[1])]
+    if kind in ('pmono', 'pmono_artic'):
+        return [kind, p[1], fn(p[2])]
+    if kind in ('ppar', 'pseq'):
+        return [kind, [rec(c) for c in p[1]]]
+    if kind == 'pchain':
+        return ['pchain', rec(p[1]), rec(p[2])] + list(p[3:])
+    if kind == 'pevent':
+        return ['pevent', p[1], rec(p[2]), p[3]]
+    if kind in ('pdur', 'pdelta', 'pn'):
+        return [kind, p[1], rec(p[2])]
+    return p
+
+
+def _written_out(m):
+    out = {}
+    for k, v in m.items():
+        if not me.is_keyset(k):
+            out[k] = v
+            continue
+        names = me.keyset_names(k)
+        rows = me.values(v)
+        for j, name in enumerate(names):
+            out[name] = v['row'][j] if rows is None else \
+                ['seq', [r['row'][j] for r in rows], 1, 0]
+    return out
+
+
+def _without_surplus(m):
+    out = {}
+    for k, v in m.items():
+        if not me.is_keyset(k):
+            out[k] = v
+            continue
+        n = len(me.keyset_names(k))
+        rows = me.values(v)
+        cut = lambda r: {'row': r['row'][:n], 'as': r.get('as', 'list')}
+        out[k] = cut(v) if rows is None else ['seq', [cut(r) for r in rows],
+                                              1, 0]
+    return out
+
+
+def key_set_variant(case, how):
+    """The case with its key sets written out as plain keys ('plain') or with
+    the surplus values of every row removed ('no-surplus'): the same
+    denotation - for the diagnosis of a difference."""
+    fn = _written_out if how == 'plain' else _without_surplus
+    out = dict(case)
+    if 'pattern' in case:
+        out['pattern'] = _rewrite_key_sets(case['pattern'], fn)
+    if case.get('shared'):
+        out['shared'] = {k: _rewrite_key_sets(x, fn)
+                         for k, x in case['shared'].items()}
+    return out
+
+
 def timeline_case(rng, insts, tags):
+    return with_key_sets(rng, _timeline_case(rng, insts, tags))
+
+
+def _timeline_case(rng, insts, tags):
     r = rng.random()
     if r < 0.07:
         return special_case(rng, insts, tags)
@@ -1331,7 +1526,56 @@ CONTROL_CHOICES = {
     'stopped': [('reset-play', 'psrmM'), ('play-reset', 'psrmM')],
     'ended': [('reset-play', 'sM'), ('play-reset', 'sM'), ('resume', 'p'),
               ('mute', 'm'), ('pause', 'p')],
+    # (round 9) the player died of a failing event: stopped (which releases
+    # what its patterns left) or restarted straight away
+    'dead': [('stop', 'psrM'), ('stop', 'psrM'), ('reset-play', 'psrM'),
+             ('play-reset', 'psrM')],
 }
+
+
+def _control_actions(rng, tl, at, fam, dies=None, mute=True):
+    """1-8 control calls for a player started at `at` over `tl`; every
+    history ends with a player that runs to its end (or dies again)."""
+    steps = max(2, int(tl.total * 16))
+    acts, g, after_reset = [], 0, False
+    ctl = lambda a, **kw: me.controlled(tl, at, a, dies=dies, **kw)
+    k = rng.randint(1, 3) if fam in 'mrs' else rng.randint(2, 6)
+    for j in range(7):
+        if j >= k and ctl(acts).state == 'ended':
+            break
+        # where on the player's time line: mostly while it has events left
+        g += rng.choice([rng.randint(0, max(1, steps // 2)),
+                         rng.randint(0, steps), 1, 2, rng.randint(0, 3)])
+        t = at + g / 16.0 + (2 * j + 1) / 1024.0
+        state = ctl(acts, probe=t).state
+        if j >= k and state == 'playing':
+            break
+        cand = [a for a, f in CONTROL_CHOICES[state] if fam in f
+                and (mute or a not in ('mute', 'unmute'))]
+        if after_reset:
+            # (play() of a player that was reset while playing starts it
+            # again at once - documented nowhere, kept out)
+            cand = [a for a in cand if a != 'play']
+        if not cand:
+            if state == 'ended':
+                break
+            cand = [a for a, f in CONTROL_CHOICES[state] if 'M' in f
+                    and (mute or a not in ('mute', 'unmute'))]
+        do = rng.choice(cand)
+        if do == 'reset':
+            after_reset = True
+        elif do in ('reset-play', 'play-reset', 'stop'):
+            after_reset = False
+        acts.append({'at': t, 'do': do})
+    final = ctl(acts).state
+    if final in ('paused', 'stopped') or (
+            final == 'dead' and rng.random() < 0.8):
+        g += rng.randint(0, 8)
+        do = rng.choice(['reset-play', 'play-reset']) \
+            if final in ('stopped', 'dead') else rng.choice(
+                ['resume', 'resume', 'play', 'reset-play'])
+        acts.append({'at': at + g / 16.0 + 15 / 1024.0, 'do': do})
+    return acts
 
 
 def control_case(rng, insts, tags):
@@ -1347,43 +1591,8 @@ def control_case(rng, insts, tags):
     tl = me.timeline(x)
     if not tl.sequential:
         family = 'mute'
-    fam = family[0]
     at = rng.choice([0.25, 1, 2.5, 0.0625])
-    steps = max(2, int(tl.total * 16))
-    acts, g, after_reset = [], 0, False
-    k = rng.randint(1, 3) if fam in 'mrs' else rng.randint(2, 6)
-    for j in range(7):
-        if j >= k and me.controlled(tl, at, acts).state == 'ended':
-            break
-        # where on the player's time line: mostly while it has events left
-        g += rng.choice([rng.randint(0, max(1, steps // 2)),
-                         rng.randint(0, steps), 1, 2, rng.randint(0, 3)])
-        t = at + g / 16.0 + (2 * j + 1) / 1024.0
-        state = me.controlled(tl, at, acts, probe=t).state
-        if j >= k and state == 'playing':
-            break
-        cand = [a for a, f in CONTROL_CHOICES[state] if fam in f]
-        if after_reset:
-            # (play() of a player that was reset while playing starts it
-            # again at once - documented nowhere, kept out)
-            cand = [a for a in cand if a != 'play']
-        if not cand:
-            if state == 'ended':
-                break
-            cand = [a for a, f in CONTROL_CHOICES[state] if 'M' in f]
-        do = rng.choice(cand)
-        if do == 'reset':
-            after_reset = True
-        elif do in ('reset-play', 'play-reset', 'stop'):
-            after_reset = False
-        acts.append({'at': t, 'do': do})
-    final = me.controlled(tl, at, acts).state
-    if final in ('paused', 'stopped'):
-        # every history ends with a player that runs to its end
-        g += rng.randint(0, 8)
-        do = 'reset-play' if final == 'stopped' else rng.choice(
-            ['resume', 'resume', 'play', 'reset-play'])
-        acts.append({'at': at + g / 16.0 + 15 / 1024.0, 'do': do})
+    acts = _control_actions(rng, tl, at, family[0])
     case = {'pattern': x, 'form': 'control', 'family': family,
             'controls': acts, 'at': at, 'offgrid': False,
             'latency': rng.choice([0, 0, 0.05, 0.25, 0.015625]),
@@ -1510,7 +1719,7 @@ def entry_case(rng, insts, tags):
 # the same pattern objects and with the same prototype event object - and the
 # events of the failing player before the failure must be as usual.
 
-def pattern_fault_case(rng, insts, tags):
+def pattern_fault_case(rng, insts, tags, keyset=False):
     by_name = {i['name']: i for i in insts}
     x = None
     for _ in range(30):
@@ -1532,7 +1741,38 @@ def pattern_fault_case(rng, insts, tags):
     if plain:
         kinds += ['unencodable'] * 3 + ['too-big']
     kind = rng.choice(kinds)
-    if kind in ('unencodable', 'too-big'):
+    if keyset:
+        # the keys that identify and time the events come first, then a key
+        # set over 1-3 of the other columns (a 'pan' column if there is none)
+        head = [k_ for k_ in ('instrument', 'tag', 'dur', 'stretch', 'delta')
+                if k_ in m]
+        tail = [k_ for k_ in m if k_ not in head]
+        if not tail:
+            m['pan'] = _column(rng, n, [-1, 0, 1, 0.25], 0.3)
+            tail = ['pan']
+        members = rng.sample(tail, min(len(tail), rng.choice([1, 2, 2, 3])))
+        rows = me._bind_events(m)
+        good = [{'row': [rows[i][k_] for k_ in members]
+                 + ([rng.choice(SURPLUS)] if rng.random() < 0.3 else []),
+                 'as': rng.choice(['list', 'tuple'])} for i in range(n)]
+        key, kind = me.keyset_key(members), 'short-key-set'
+        r_ = rng.random()
+        if r_ < 0.7:
+            bad = {'row': good[k]['row'][:rng.randint(0, len(members) - 1)],
+                   'as': good[k]['as']}
+        else:
+            bad = rng.choice([0.5, 3])      # no list at all
+        pos = min(tail.index(k_) for k_ in members)
+        rest = [k_ for k_ in tail if k_ not in members]
+        order = head + rest[:pos] + [key] + rest[pos:]
+        old_m = dict(m)
+        m.clear()
+        for k_ in order:
+            if k_ != key:
+                m[k_] = old_m[k_]
+            else:
+                m[k_] = None
+    elif kind in ('unencodable', 'too-big'):
         key = rng.choice(plain)
         bad = {'bad': rng.choice(['object', 'complex', 'set'])} \
             if kind == 'unencodable' else {'bad': 'bigint'}
@@ -1581,10 +1821,147 @@ def _first_rows(m):
     return me._bind_events(m)
 
 
+# ---------------------------------------------------------------- mono lines under control
+#
+# Player-control histories on Pmono / PmonoArtic lines WHILE THEIR NODE IS
+# ALIVE: the node of a mono line is created once per run of the stream and
+# released exactly once - by its pattern (end of the line, end of a slur), by
+# stop(), by the reset that starts the stream again - never twice, however
+# the player got there: stop / reset / pause / resume / reset + play /
+# play(reset=True), also after an event of the line FAILED in play() and left
+# the player dead with the node alive (then stop and / or restart, the
+# pattern repaired in between or not).  No mute (a muted start of a mono line
+# is not defined).
+
+def _mono_leaf(rng, insts, tags, artic):
+    if artic:
+        leaf = artic_case(rng, insts, tags)['pattern']
+        while leaf[0] != 'pmono_artic':
+            leaf = leaf[2] if leaf[0] != 'ppar' else leaf[1][0]
+        return leaf
+    for _ in range(20):
+        leaf = pmono_spec(rng, insts, tags, False, rests=rng.random() < 0.3)
+        tl = me.timeline(leaf)
+        if len(tl.items) >= 3 and not tl.flags and tl.total >= 0.5:
+            return leaf
+    m = leaf[2]
+    n = rng.randint(3, 6)
+    m['tag'] = ['seq', [next(tags) for _ in range(n)], 1, 0]
+    for k in list(m):
+        if k != 'tag' and me.values(m[k]) is not None:
+            del m[k]
+    m['dur'] = rng.choice([0.25, 0.5, 1])
+    m.pop('delta', None)
+    return leaf
+
+
+def mono_control_case(rng, insts, tags):
+    artic = rng.random() < 0.35
+    leaf = _mono_leaf(rng, insts, tags, artic)
+    lt = me.timeline(leaf)
+    shape = rng.choice(['leaf', 'leaf', 'leaf', 'then-pbind', 'after-pbind',
+                        'two-lines', 'pn', 'pdelta', 'pdur'])
+    other = lambda: pbind_spec(rng, insts, tags, False)
+    if shape == 'then-pbind':
+        x = ['pseq', [leaf, other()]]
+    elif shape == 'after-pbind':
+        x = ['pseq', [other(), leaf]]
+    elif shape == 'two-lines':
+        x = ['pseq', [leaf, _mono_leaf(rng, insts, tags,
+                                       rng.random() < 0.35)]]
+    elif shape == 'pn':
+        x = ['pn', 2, leaf]
+    elif shape == 'pdelta':
+        x = ['pdelta', rng.choice([0.0625, 0.25, 0.5, 1]), leaf]
+    elif shape == 'pdur':
+        x = ['pdur', rng.randint(1, max(1, int(lt.total * 16) + 4)) / 16.0,
+             leaf]
+    else:
+        x = leaf
+    tl = me.timeline(x)
+    if tl.flags or not tl.sequential:
+        x, tl, shape = leaf, lt, 'leaf'
+    dies = fault = None
+    if rng.random() < 0.4:
+        # an event of the mono line fails when it is played (a value the
+        # message encoder refuses / a non-number in the pitch chain)
+        m = leaf[2]
+        rows = me._bind_events(m)
+        cand = [i for i, r in enumerate(rows) if not me.event_is_rest(r)]
+        plain = [k for k in _plain_controls_of(
+            {i['name']: i for i in insts}[leaf[1]]) if k in m]
+        if cand:
+            row = rng.choice(cand[1:] or cand) if rng.random() < 0.85 \
+                else cand[0]
+            if plain and rng.random() < 0.6:
+                key = rng.choice(plain)
+                bad = {'bad': rng.choice(['object', 'complex', 'set'])}
+                kind = 'unencodable'
+            else:
+                for pk in ('freq', 'midinote', 'note', 'degree', 'ctranspose',
+                           'harmonic', 'mtranspose', 'octave'):
+                    m.pop(pk, None)
+                key, bad, kind = 'degree', {'bad': rng.choice(
+                    ['str-c', 'none'])}, 'bad-pitch'
+            good = [rows[i].get(key, 0) for i in range(len(rows))]
+            if key == 'degree':
+                good = [rng.randint(-7, 14) for _ in rows]
+            good = [me.num(v) for v in good]
+            m[key] = ['seq', good, 1, 0]
+            tl = me.timeline(x)
+            tag = me._bind_events(m)[row]['tag']
+            idx = next((i for i, (_, e) in enumerate(tl.items)
+                        if e.keys.get('tag') == tag), None)
+            if idx is not None:     # (else: a Pdur cuts the line before it)
+                dies = {'idx': idx, 'repair': rng.random() < 0.7}
+                fault = {'row': row, 'key': key, 'bad': bad, 'kind': kind,
+                         'tag': tag}
+    at = rng.choice([0.25, 1, 2.5, 0.0625])
+    fam = rng.choice(['p', 'p', 'r', 's', 's', 'M', 'M', 'M'])
+    family = {'p': 'pause', 'r': 'reset', 's': 'start-again',
+              'M': 'Mixed'}[fam]
+    acts = _control_actions(rng, tl, at, fam, dies, mute=False)
+    case = {'pattern': x, 'form': 'mono-control', 'family': family,
+            'shape': shape, 'controls': acts, 'at': at, 'offgrid': False,
+            'latency': rng.choice([0, 0, 0.05, 0.25, 0.015625]),
+            'clock': rng.choice(['default', 'system', 'tempo']),
+            'proto': rng.choice([None, 'event'])}
+    if fault:
+        case['fault'], case['dies'] = fault, dies
+        c = me.controlled(tl, at, acts, dies=dies)
+        case['repair_before'] = c.repair_before if c is not None else None
+    return case
+
+
+def short_key_set_case(rng, insts, tags):
+    """A pattern fault of its own kind: row k of a key set of a Pbind yields
+    FEWER values than keys (or no list at all).  What the player does from
+    that row on is not decided (SuperCollider ends the stream; this library
+    plays what the keys before the key set give); the rows before it, and
+    every other player on the same pattern objects, are as usual.  The key
+    set comes after instrument, tag and the timing keys."""
+    case = pattern_fault_case(rng, insts, tags, keyset=True)
+    leaf = case['shared']['x']
+    while leaf[0] != 'pbind':
+        leaf = leaf[2]
+    rows = leaf[1][case['fault']['key']][1]
+    n = len(me.keyset_names(case['fault']['key']))
+    case['keysets'] = {'sets': 1, f'size{n}': 1, 'in_pbind': 1,
+                       'surplus': sum(len(r['row']) > n for r in rows),
+                       'equal': sum(len(r['row']) == n for r in rows)}
+    return case
+
+
 def control_shard_case(rng, insts, tags):
     r = rng.random()
-    if r < 0.3:
-        return entry_case(rng, insts, tags)
-    if r < 0.42:
-        return pattern_fault_case(rng, insts, tags)
-    return control_case(rng, insts, tags)
+    if r < 0.24:
+        case = entry_case(rng, insts, tags)
+    elif r < 0.32:
+        case = pattern_fault_case(rng, insts, tags)
+    elif r < 0.36:
+        case = short_key_set_case(rng, insts, tags)
+    elif r < 0.60:
+        case = mono_control_case(rng, insts, tags)
+    else:
+        case = control_case(rng, insts, tags)
+    return with_key_sets(rng, case, 0.25)
